@@ -781,7 +781,7 @@ static void JitAllocatorImpl_wipeOutBlock(JitAllocatorPrivateImpl* impl, JitAllo
 
     uint32_t granularity = pool->granularity;
     uint8_t* rw_ptr = block->rw_ptr();
-    BitVectorRangeIterator<Support::BitWord, 0> it(block->_used_bit_vector, pool->bit_word_count_from_area_size(block->area_size()));
+    BitVectorRangeIterator<Support::BitWord, 1> it(block->_used_bit_vector, pool->bit_word_count_from_area_size(block->area_size()));
 
     size_t range_start;
     size_t range_end;
